@@ -40,7 +40,7 @@ thread_local! {
 }
 
 fn html_tree(cfg: &TreeCfg, chunks_: &[String]) -> (String, String, &'static str) {
-    let (dom, results, _) = drive(ModelDom::new(), cfg, chunks_, |_, _, _, _| {});
+    let (dom, results, _) = drive(ModelDom::for_cfg(cfg), cfg, chunks_, |_, _, _, _| {});
     LAST_RESULTS.with(|r| *r.borrow_mut() = results);
     let with_dt = model_canon(&dom, DOC, CanonOpts::default());
     let without = model_canon(&dom, DOC, CanonOpts { doctype: false, ..CanonOpts::default() });
